@@ -37,6 +37,16 @@ CLAIMED = {
                  'enabled at every block boundary), and the NotFound answers of the read operation.', 'DESIGN.md section 6 C05'),
     'C11': chain('Invariant: an active entry under d has document id d, and the read operation answers with a document about d; the DID field, document id and signed payload are '
                  'chosen independently, including a hostile twin DID that differs from another only in the case of one letter.', 'DESIGN.md section 6 C11'),
+    'C06': chain('Denom and token cells change only through an authorised message of the then-current owner (pre-state owner, signer set chosen independently of the actor, '
+                 'authz Exec); refused requests leave denoms, tokens, owner index and supply unchanged.', 'DESIGN.md section 6 C06'),
+    'C12': chain('Token metadata immutable after mint, every token in an existing denom, owner index and supply counter equal to the tokens, and every listing '
+                 '(PNFT, PNFTs, PNFTsByDenomOwner, Denom, Denoms paged, DenomsByOwner) equal to the single-item view, evaluated on the real answers; identifier alphabet includes '
+                 'prefix-related names, "/" and NUL-bearing ids.', 'DESIGN.md section 6 C12'),
+    'C07': chain('On every EndBlock step: spendable balance of the burn address drops to zero, supply shrinks by exactly that per denomination, nobody else changes, block not halted, '
+                 'all crisis invariants hold (asserted on the real keeper); plus the accounting identity as an invariant. Deposits by Send/MultiSend/vesting creation, two denominations, '
+                 'amounts 0/1/7/1000 in units of 1 and 10^30, minting on and off.', 'DESIGN.md section 6 C07'),
+    'C08': chain('ExportImportBegin is an action enabled at every block boundary of histories over all three custom modules; on the real app: export twice (byte equality), module '
+                 'ValidateGenesis, InitChain on a fresh app, every custom query before/after, re-export equality, raw store equality.', 'DESIGN.md section 6 C08'),
 }
 
 PENDING_REASON = 'check not built yet in this round of work (planned in DESIGN.md section 11); no claim is made until its machinery exists'
